@@ -13,7 +13,7 @@ func init() {
 	register(&PropertyDef{
 		ID:          "C09",
 		Title:       "Concurrent sends never reuse a counter, key or nonce; chain only moves forward",
-		Explanation: "Decides, for every schedule at once, the locking and arithmetic shape that makes counters unique: (D1) in SealEnvelope the read of the own chain key, the sealing (secretbox.Seal, Sign), the write of the next precomputed key and the write of the advanced chain key all happen with the secret store's message mutex write-held, acquired once before the first of them, with no release of that mutex anywhere in the code reachable from those steps; (D3) every Put on the chain-key namespace that can overwrite an existing entry is reached only on call paths holding that write lock (creation puts, dominated by the 'no chain key stored' outcome of a lookup, are exempt: they cannot overwrite); (D4) the updater of the stored chain key is monotone: evaluated abstractly over the orderings {new<stored, new=stored, new>stored} it never writes when new<stored and always writes when new>stored; (D6) the own chain key is looked up, generated on a miss and stored inside one write-locked critical section; the updater fails when it cannot read the stored key; (D5) the counter sealed into the headers and used as nonce is the stored counter + 1 and the chain key stored afterwards carries stored counter + 1 (same increment on both sides); (D7) the own chain key is created only when its lookup reported exactly the 'missing' sentinel, and every function behind that lookup returns the sentinel only on the datastore's own not-found outcome (err == / errors.Is datastore.ErrNotFound) or after a successful read - an I/O fault or a cancelled context surfaces as a different error, so a transient read fault can never replace an advanced chain key by a fresh one at counter 0; (D8) the chain moves forward by SealEnvelope only: on every call path from OpenEnvelopePayload to an overwriting Put of a chain key the update is skipped when the sender decoded from headers.DevicePk equals the own-device parameter (or runs when that parameter is nil), and every module call of OpenEnvelopePayload passes as that parameter the Device() key of an OwnMemberDevice (through locals, fields and helpers) or nil - never Member() or a foreign key. Not decided (D7/D8): implementations of the datastore/keystore interfaces outside the module; that the OwnMemberDevice whose Device() is passed belongs to the same group as the store. Not decided: that every envelope opens at a receiver (C01/C02), behaviour under real parallel runs, datastore atomicity.",
+		Explanation: "Decides, for every schedule at once, the locking and arithmetic shape that makes counters unique: (D1) in SealEnvelope the read of the own chain key, the sealing (secretbox.Seal, Sign), the write of the next precomputed key and the write of the advanced chain key all happen with the secret store's message mutex write-held, acquired once before the first of them, with no release of that mutex anywhere in the code reachable from those steps; (D3) every Put on the chain-key namespace that can overwrite an existing entry is reached only on call paths holding that write lock (creation puts, dominated by the 'no chain key stored' outcome of a lookup, are exempt: they cannot overwrite); (D4) the updater of the stored chain key is monotone: evaluated abstractly over the orderings {new<stored, new=stored, new>stored} it never writes when new<stored and always writes when new>stored; (D6) the own chain key is looked up, generated on a miss and stored inside one write-locked critical section; the updater fails when it cannot read the stored key; (D5) the counter sealed into the headers and used as nonce is the stored counter + 1 and the chain key stored afterwards carries stored counter + 1 (same increment on both sides); (D7) the own chain key is created only when its lookup reported exactly the 'missing' sentinel (tested on the lookup's error directly, or handed on by a module helper as its 'not found, no error' outcome, every such return of the helper being itself on the sentinel side and the helper's error tested nil by the creator), and every function behind that lookup returns the sentinel only on the datastore's own not-found outcome (err == / errors.Is datastore.ErrNotFound) or after a successful read - an I/O fault or a cancelled context surfaces as a different error, so a transient read fault can never replace an advanced chain key by a fresh one at counter 0; (D8) the chain moves forward by SealEnvelope only: on every call path from OpenEnvelopePayload to an overwriting Put of a chain key the update is skipped when the sender decoded from headers.DevicePk equals the own-device parameter (or runs when that parameter is nil), and every module call of OpenEnvelopePayload passes as that parameter the Device() key of an OwnMemberDevice (through locals, fields and helpers) or nil - never Member() or a foreign key. Not decided (D7/D8): implementations of the datastore/keystore interfaces outside the module; that the OwnMemberDevice whose Device() is passed belongs to the same group as the store. Not decided: that every envelope opens at a receiver (C01/C02), behaviour under real parallel runs, datastore atomicity.",
 		Trusted:     []string{"go/ssa (x/tools v0.29.0)", "sync.RWMutex semantics", "lock identity by owner type + field (one message mutex per secret store)", "go-datastore: Get returns ErrNotFound (possibly wrapped) iff the key is absent", "errcode.Is compares the top-level code only"},
 		Assumptions: []string{"a secret store is not shared between two datastores; the datastore's Put is atomic per key"},
 		Floors:      map[string]int{"D1": 3, "D3": 3, "D4": 4, "D5": 3, "D6": 1, "D7": 2, "D8": 2},
@@ -1005,27 +1005,25 @@ func checkMissSentinel(c *Ctx, rule, role string) {
 		if role == c09RoleChainKey && fnPkg(fn).Path() != pkgSecret {
 			continue
 		}
-		if role == c09RoleNamedKey && len(callsIn(fn, func(k string, cc *ssa.CallCommon) bool {
+		if role == c09RoleNamedKey && fnPkg(fn).Path() != pkgSecret && len(callsIn(fn, func(k string, cc *ssa.CallCommon) bool {
 			return cc.IsInvoke() && isNamed(cc.Value.Type(), pkgKeystore, "Keystore")
 		})) == 0 {
 			continue
 		}
-		var lookups []effectSite
+		gens := c09FreshKeyCalls(w, fn, role)
+		if len(gens) == 0 {
+			continue
+		}
+		lookups := c09LookupsOf(w, fn, role)
 		stores := 0
 		for _, s := range ei.sitesIn(fn) {
 			switch role {
 			case c09RoleChainKey:
-				if s.has(eff("Get", nsChainKey)) && s.pureLookup() {
-					lookups = append(lookups, s)
-				}
 				if s.has(eff("Put", nsChainKey)) {
 					stores++
 				}
 			case c09RoleNamedKey:
-				if s.Direct && s.Effects[0].Op == "KsGet" {
-					lookups = append(lookups, s)
-				}
-				if s.Direct && s.Effects[0].Op == "KsPut" {
+				if s.has(func(e Effect) bool { return e.Op == "KsPut" }) {
 					stores++
 				}
 			}
@@ -1033,41 +1031,38 @@ func checkMissSentinel(c *Ctx, rule, role string) {
 		if len(lookups) == 0 || stores == 0 {
 			continue
 		}
-		gens := c09FreshKeyCalls(w, fn, role)
-		if len(gens) == 0 {
-			continue
-		}
 		n++
 		c.analysed(fn)
 		for _, g := range gens {
 			construct := fnName(fn) + "+create-on-miss"
-			var hit *c09SentTest
-			var hitLookup effectSite
-			for _, l := range lookups {
-				e := errVerdict(l.Instr)
-				for _, t := range c09SentinelTests(fn, e) {
-					t := t
-					if edgeDominates(t.Is, g.(ssa.Instruction).Block()) {
-						hit, hitLookup = &t, l
-					}
-				}
-			}
-			if hit == nil {
-				c.fail(rule, construct, posOf(g), "a fresh key is generated although the lookup of the stored one was not tested to have reported exactly the 'missing' sentinel: any failure of the lookup (I/O fault, cancelled context) replaces the key in use by a new one")
+			evs, why := c09MissEvidenceAt(w, fn, g.(ssa.Instruction).Block(), role, 0)
+			if len(evs) == 0 {
+				c.fail(rule, construct, posOf(g), "a fresh key is generated although the lookup of the stored one was not tested to have reported exactly the 'missing' sentinel (%s): any failure of the lookup (I/O fault, cancelled context) replaces the key in use by a new one", why)
 				continue
 			}
-			c.ok(rule, construct, posOf(g), "fresh key generated only when the lookup reported %s", c09ShortSentinel(hit.Sent))
-			var trans []*ssa.Function
-			if hitLookup.Direct {
-				trans = w.resolve(hitLookup.Instr.Common(), nil)
-			} else {
-				trans = calleesAt(w, fn, hitLookup.Instr)
+			var desc []string
+			for _, ev := range evs {
+				d := c09ShortSentinel(ev.Sent)
+				if ev.Fn != fn {
+					d += " (tested in " + fnName(ev.Fn) + ", handed on as its 'not found, no error' outcome)"
+					c.analysed(ev.Fn)
+				}
+				desc = append(desc, d)
 			}
-			if len(trans) == 0 {
-				c.note("%s: the lookup behind %s has no implementation inside the module; exactness of %s is decided for module implementations only", rule, fnName(fn), c09ShortSentinel(hit.Sent))
-			}
-			for _, t := range trans {
-				mc.translator(t, hit.Sent, 0)
+			c.ok(rule, construct, posOf(g), "fresh key generated only when the lookup reported %s", strings.Join(desc, " / "))
+			for _, ev := range evs {
+				var trans []*ssa.Function
+				if ev.Lookup.Direct {
+					trans = w.resolve(ev.Lookup.Instr.Common(), nil)
+				} else {
+					trans = calleesAt(w, ev.Fn, ev.Lookup.Instr)
+				}
+				if len(trans) == 0 {
+					c.note("%s: the lookup behind %s has no implementation inside the module; exactness of %s is decided for module implementations only", rule, fnName(ev.Fn), c09ShortSentinel(ev.Sent))
+				}
+				for _, t := range trans {
+					mc.translator(t, ev.Sent, 0)
+				}
 			}
 		}
 	}
@@ -1075,6 +1070,186 @@ func checkMissSentinel(c *Ctx, rule, role string) {
 		c.undecided(rule, "get-or-create("+role+")", token.NoPos, "no function that looks up a stored key, generates a fresh one and stores it was found for role %s", role)
 	}
 	c.count(rule+"_translator_reads", mc.count)
+}
+
+// c09LookupsOf: the sites of fn that only read the stored key of the role (directly, or
+// through a module helper whose whole effect summary is reads).
+func c09LookupsOf(w *World, fn *ssa.Function, role string) []effectSite {
+	var out []effectSite
+	for _, s := range w.effects().sitesIn(fn) {
+		if !s.pureLookup() {
+			continue
+		}
+		switch role {
+		case c09RoleChainKey:
+			if s.has(eff("Get", nsChainKey)) {
+				out = append(out, s)
+			}
+		case c09RoleNamedKey:
+			if s.has(func(e Effect) bool { return e.Op == "KsGet" }) {
+				out = append(out, s)
+			}
+		}
+	}
+	return out
+}
+
+// c09MissEvidence: the read whose error was tested to be sentinel Sent, in function Fn.
+type c09MissEvidence struct {
+	Sent   string
+	Fn     *ssa.Function
+	Lookup effectSite
+}
+
+// c09MissEvidenceAt decides whether block blk of fn is reached only when a lookup of the
+// role reported "missing". Two shapes are accepted:
+//
+//	(1) blk is dominated by the is-sentinel side of a test of the lookup's error;
+//	(2) the lookup is a module helper with an outcome result (found bool, or a value that is
+//	    nil on a miss): blk is dominated by the helper's "no error" side and by its "not
+//	    found" side, and inside the helper every return with that outcome (false/nil, nil
+//	    error) is itself reached only on a miss - recursively by (1) or (2). Every other
+//	    failure of the helper's read then comes back as a non-nil error, which the caller
+//	    has tested.
+//
+// When no evidence is found the string says what is missing.
+func c09MissEvidenceAt(w *World, fn *ssa.Function, blk *ssa.BasicBlock, role string, depth int) ([]c09MissEvidence, string) {
+	if depth > 3 {
+		return nil, "helper chain too deep"
+	}
+	lookups := c09LookupsOf(w, fn, role)
+	if len(lookups) == 0 {
+		return nil, "no lookup of the stored key in " + fnName(fn)
+	}
+	why := "the generation is not on the 'missing' side of any test of the lookup's outcome"
+	for _, l := range lookups {
+		e := errVerdict(l.Instr)
+		// shape (1)
+		for _, t := range c09SentinelTests(fn, e) {
+			if edgeDominates(t.Is, blk) {
+				return []c09MissEvidence{{Sent: t.Sent, Fn: fn, Lookup: l}}, ""
+			}
+		}
+		if l.Direct {
+			continue
+		}
+		// shape (2)
+		if _, isCall := l.Instr.(*ssa.Call); !isCall {
+			continue
+		}
+		sig := l.Instr.Common().Signature()
+		errIdx := errResultIndex(sig)
+		if errIdx >= 0 {
+			if e == nil {
+				why = "the error result of " + fnName(l.Callee) + " is discarded"
+				continue
+			}
+			okSide := false
+			for _, a := range edgesOfVerdict(e).Accept {
+				if edgeDominates(a, blk) {
+					okSide = true
+				}
+			}
+			if !okSide {
+				why = "the error result of " + fnName(l.Callee) + " is not tested to be nil before the key is generated"
+				continue
+			}
+		}
+		for i := 0; i < sig.Results().Len(); i++ {
+			if i == errIdx {
+				continue
+			}
+			v := resultValue(l.Instr, i)
+			if v == nil || !c09MissSideDominates(v, blk) {
+				continue
+			}
+			// the helper's own returns with that outcome
+			var all []c09MissEvidence
+			bad := ""
+			nMiss := 0
+			for _, h := range calleesAt(w, fn, l.Instr) {
+				for _, r := range returnsOf(h) {
+					rr := retResults(r)
+					if i >= len(rr) || !isSuccessReturn(r) {
+						continue
+					}
+					switch c09OutcomeOf(rr[i]) {
+					case "hit":
+						continue
+					case "unknown":
+						bad = "cannot tell whether the return of " + fnName(h) + " at line " + fmt.Sprint(w.Fset.Position(posOf(r)).Line) + " means 'found' or 'missing'"
+						continue
+					}
+					nMiss++
+					sub, subWhy := c09MissEvidenceAt(w, h, r.Block(), role, depth+1)
+					if len(sub) == 0 {
+						bad = fnName(h) + " reports 'not found, no error' on a path where its read was not tested to have reported the 'missing' sentinel: " + subWhy
+						continue
+					}
+					all = append(all, sub...)
+				}
+			}
+			switch {
+			case bad != "":
+				why = bad
+			case nMiss == 0:
+				why = fnName(l.Callee) + " has no 'not found, no error' return"
+			default:
+				return all, ""
+			}
+		}
+	}
+	return nil, why
+}
+
+// c09MissSideDominates: blk is dominated by the side of a test of outcome value v on which
+// v is false (bool) or nil (pointer, interface, slice, map).
+func c09MissSideDominates(v ssa.Value, blk *ssa.BasicBlock) bool {
+	if isBoolType(v.Type()) {
+		for _, e := range edgesOfVerdict(v).Reject {
+			if edgeDominates(e, blk) {
+				return true
+			}
+		}
+		return false
+	}
+	switch v.Type().Underlying().(type) {
+	case *types.Pointer, *types.Interface, *types.Slice, *types.Map:
+	default:
+		return false
+	}
+	// for nil-able values edgesOfVerdict's "accepting" side is v == nil
+	for _, e := range edgesOfVerdict(v).Accept {
+		if edgeDominates(e, blk) {
+			return true
+		}
+	}
+	return false
+}
+
+// c09OutcomeOf classifies a returned outcome value: "miss" (false / nil), "hit" (true / a
+// value that is not the nil constant), "unknown" (a computed bool).
+func c09OutcomeOf(v ssa.Value) string {
+	if b, ok := constBool(v); ok {
+		if b {
+			return "hit"
+		}
+		return "miss"
+	}
+	if isBoolType(v.Type()) {
+		return "unknown"
+	}
+	if isNilConst(v) {
+		return "miss"
+	}
+	if ph, ok := v.(*ssa.Phi); ok {
+		for _, e := range ph.Edges {
+			if isNilConst(e) {
+				return "unknown"
+			}
+		}
+	}
+	return "hit"
 }
 
 // ---------------------------------------------------------------------------
